@@ -44,7 +44,7 @@ TAP = {'records': []}
 def gates(tier):
     return {'direct_configs': 2500, 'dependent_values_checked': 20000, 'declaration_orders_exhaustive': 1000,
             'cyclic_or_dangling_configs': 1000, 'grader_sample_lists_tapped': 600, 'numbered_instances_checked': 500,
-            'sibling_cases': 150, 'recorded_function_calls': 1000, 'shadowed_constant_cases': 100}
+            'sibling_cases': 150, 'sibling_via_dependent_sampler_cases': 60, 'recorded_function_calls': 1000, 'shadowed_constant_cases': 100}
 
 
 def make_dag(rng, n, allow_vector=True):
@@ -314,6 +314,43 @@ def run_graders(ctx):
                     ctx.count('grader_sample_lists_tapped')
                     check_samples(ctx, 'C13:grader:dag', variables, consts, smp_list, wit, 2)
             ctx.nontrivial(['gdag', wit['variables'], order])
+        elif i % 8 == 3:
+            # a sibling input needed only by the DependentSampler of a (numbered or plain) variable of the second box
+            first = rng.choice(['x+1', '1+x', 'x+2', '2*x'])
+            fx = {'x+1': lambda x: x + 1, '1+x': lambda x: x + 1, 'x+2': lambda x: x + 2, '2*x': lambda x: 2 * x}[first]
+            numbered = rng.random() < 0.7
+            idx = rng.choice([0, 1, 3, 12, -2])
+            nm = 'c_{%d}' % idx if numbered else 'c'
+            g1 = FormulaGrader(variables=['x'], sample_from={'x': [21, 22]}, samples=3)
+            g2 = FormulaGrader(variables=['x'] + ([] if numbered else ['c']), numbered_vars=['c'] if numbered else [],
+                               sample_from={'x': [21, 22], 'c': DependentSampler(formula='sibling_1+1')},
+                               user_functions={'rec2': rec2}, samples=3)
+            g = ListGrader(answers=['x+1', 'rec2(%s, x)' % nm], subgraders=[g1, g2], ordered=True)
+            second = rng.choice(['(%s)+1' % first, '(%s)+2' % first, 'rec2(%s,x)' % nm])
+            out = lib.call(ctx, g, None, [first, second])
+            ctx.ev()
+            ctx.count('sibling_cases')
+            ctx.count('sibling_via_dependent_sampler_cases')
+            wit = {'inputs': [first, second], 'second_box_variable': nm, 'sampled_as': 'DependentSampler(sibling_1+1)', 'outcome': out.brief()}
+            want = [first in ('x+1', '1+x'), not second.endswith('+2')]
+            if not out.returned:
+                ctx.violation('C13:grader:sibling_sampler:raises', repr(out.brief()), wit)
+            else:
+                got = [e['ok'] is True for e in out.value['input_list']]
+                if got != want:
+                    ctx.violation('C13:grader:sibling_sampler:verdict', 'expected %r, got %r' % (want, got), wit)
+            for r in recorded:
+                ctx.count('recorded_function_calls')
+                if r[0] == 'rec2' and abs(r[1] - (fx(r[2]) + 1)) > 1e-9 * abs(r[1]):
+                    ctx.violation('C13:grader:sibling_sampler:inconsistent_sample',
+                                  'rec2 saw %s = %r with x = %r; sibling_1+1 with sibling_1 = %r gives %r' % (nm, r[1], r[2], first, fx(r[2]) + 1), wit)
+            for smp_symbols, nsamp, cst, smp_list in TAP['records']:
+                if 'sibling_1' in smp_symbols:
+                    ctx.count('grader_sample_lists_tapped')
+                    for smp in smp_list:
+                        if nm not in smp or 'sibling_1' not in smp or abs(smp['sibling_1'] - fx(smp['x'])) > 1e-9 or abs(smp[nm] - smp['sibling_1'] - 1) > 1e-9:
+                            ctx.violation('C13:grader:sibling_sampler:dependent_inconsistent', 'sample %r' % (smp,), wit)
+            ctx.nontrivial(['sibsamp', first, second, nm])
         else:
             # sibling formulas in an ordered list: answer 2 is a function of input 1
             sub = FormulaGrader(variables=['x'], sample_from={'x': [21, 22]}, user_functions={'rec2': rec2}, samples=3)
